@@ -95,9 +95,9 @@ namespace BitSerializer::Detail
 			return {};
 		}
 
-		if (mStartDataPtr + blockSize > mEndDataPtr)
+		if (blockSize > static_cast<size_t>(mEndDataPtr - mStartDataPtr))
 		{
-			if (!ReadNextChunk() || mStartDataPtr + blockSize > mEndDataPtr)
+			if (!ReadNextChunk() || blockSize > static_cast<size_t>(mEndDataPtr - mStartDataPtr))
 			{
 				return {};
 			}
